@@ -237,7 +237,70 @@ func c19FSReplay(i int, raw json.RawMessage) Result {
 	return Result{OK: true, Key: key}
 }
 
+// ---- multi loader over members that change (spec/JetMulti.tla) ---------------------------------
+
+type c19MultiVec struct {
+	N    int `json:"n"`
+	Hist []struct {
+		Op  string `json:"op"`
+		L   int    `json:"l"`
+		P   string `json:"p"`
+		Ans string `json:"ans"`
+	} `json:"hist"`
+}
+
+func c19MultiReplay(i int, raw json.RawMessage) Result {
+	var v c19MultiVec
+	if err := json.Unmarshal(raw, &v); err != nil {
+		return Result{Detail: "bad vector: " + err.Error()}
+	}
+	key := string(raw)
+	mems := make([]*jet.InMemLoader, v.N)
+	var m *multi.Multi
+	for k := range mems {
+		mems[k] = jet.NewInMemLoader()
+		if k == 0 {
+			m = multi.NewLoader(mems[k])
+		} else {
+			m.AddLoaders(mems[k])
+		}
+	}
+	for k, h := range v.Hist {
+		p := "/" + h.P
+		sig := map[string]interface{}{"loader": "multi-of-inmem", "kind": "history", "op": h.Op}
+		var got string
+		switch h.Op {
+		case "set":
+			mems[h.L-1].Set(p, h.Ans)
+			continue
+		case "delete":
+			mems[h.L-1].Delete(p)
+			continue
+		case "exists":
+			got = "no"
+			if m.Exists(p) {
+				got = "yes"
+			}
+		case "open":
+			rc, err := m.Open(p)
+			if err != nil {
+				got = "ERR"
+			} else {
+				b, _ := io.ReadAll(rc)
+				rc.Close()
+				got = string(b)
+			}
+		}
+		if got != h.Ans {
+			return Result{Sig: sig, Key: key, Observed: got, Expected: h.Ans,
+				Detail: fmt.Sprintf("step %d: %s(%s) through the multi loader answered %q, the first member that has the path now gives %q", k+1, h.Op, p, got, h.Ans)}
+		}
+	}
+	return Result{OK: true, Key: key}
+}
+
 func init() {
+	commands["replay-C19multi"] = func(a []string) int { return replayLoop(a[0], a[1], c19MultiReplay) }
 	commands["replay-C19mem"] = func(a []string) int { return replayLoop(a[0], a[1], c19MemReplay) }
 	commands["replay-C19fs"] = func(a []string) int {
 		d, err := os.MkdirTemp("", "jv-c19-")
